@@ -828,31 +828,97 @@ def rule_printfields(crate):
         out.error("anchor missing: Power arm of the dimension-expression printer")
         return out
     pf, pl = crate.loc(tf, parm["pat"])
-    ifs = [x for x in walk(parm["body"]) if x.get("k") == "If" and x.get("else") is not None]
-    decided = False
-    for i in ifs:
-        def has_paren(e):
-            from wpeval import is_paren_wrapper
+    from wpeval import is_paren_wrapper
 
-            return any((y.get("k") == "Lit" and isinstance(y.get("lit"), dict) and y["lit"].get("v") == "(") or (y.get("k") == "Call" and is_paren_wrapper(crate, callee(y))) for y in walk(e))
-        bare_then, bare_else = not has_paren(i["then"]), not has_paren(i["else"])
-        if bare_then == bare_else:
-            continue
-        decided = True
+    # the exponent binding: last field of the Power pattern
+    tsp = [p_ for p_ in walk(parm["pat"]) if p_.get("k") == "TupleStruct" and p_.get("pats")]
+    exp_id = tsp[0]["pats"][-1].get("id") if tsp and tsp[0]["pats"][-1].get("k") == "Binding" else None
+    if exp_id is None:
+        out.error("anchor missing: exponent binding of the Power arm of the dimension-expression printer")
+        return out
+
+    def mentions_exp(e):
+        return any(y.get("k") == "Path" and y.get("res", {}).get("r") == "local" and y["res"].get("id") == exp_id for y in walk(e))
+
+    def template_pieces(y):
+        """literal pieces of a format_args! template (byte-string form: <len> <bytes> … 0xC0 = argument … 0x00)"""
+        raw, i, res = bytes.fromhex(y["lit"]["v"]), 0, []
+        while i < len(raw):
+            n_ = raw[i]
+            if n_ == 0:
+                break
+            if n_ < 0x80:
+                res.append(raw[i + 1:i + 1 + n_].decode("utf-8", "replace"))
+                i += 1 + n_
+            else:
+                i += 1
+        return res
+
+    def has_paren(e):
+        for y in walk(e):
+            if y.get("k") == "Lit" and isinstance(y.get("lit"), dict):
+                if y["lit"].get("lk") == "bytestr" and "v" in y["lit"]:
+                    if any("(" in pc for pc in template_pieces(y)):
+                        return True
+                elif y["lit"].get("v") == "(":
+                    return True
+            if y.get("k") == "Call" and is_paren_wrapper(crate, callee(y)):
+                return True
+        return False
+
+    def delegates(e):
+        return any(y.get("k") == "Call" and (callee(y) or "").startswith("crate::arithmetic::") and any(mentions_exp(a_) for a_ in y.get("args", [])) for y in walk(e))
+
+    def leaves(i, path):
         tests = {y["name"] for y in walk(i["cond"]) if y.get("k") == "MethodCall"}
         negated = any(y.get("k") == "Unary" and y.get("op") == "Not" for y in walk(i["cond"]))
-        if "is_integer" in tests and (bare_then or negated):
-            out.ok("type-exponent:bare-only-if-integer", pf, pl, "the exponent is written without parentheses only under an is_integer() test (%s)" % sorted(tests))
-        else:
-            out.violation("type-exponent:bare-only-if-integer", pf, pl, "the exponent of a dimension expression is written without parentheses under the test %s, which does not include is_integer(): `Length^(1/2)` is echoed as `Length^1/2`" % sorted(tests))
+        for br in ("then", "else"):
+            e = i[br]
+            inner = peel(e)
+            while inner.get("k") == "Block" and not inner.get("stmts") and inner.get("tail") is not None:
+                inner = peel(inner["tail"])
+            step = path + [(tests, br, negated)]
+            if inner.get("k") == "If" and inner.get("else") is not None:
+                yield from leaves(inner, step)
+            else:
+                yield step, e
+
+    all_ifs = [x for x in walk(parm["body"]) if x.get("k") == "If" and x.get("else") is not None and mentions_exp(x)]
+    nested = {id(y) for x in all_ifs for br in ("then", "else") for y in walk(x[br]) if y.get("k") == "If"}
+    ifs = [x for x in all_ifs if id(x) not in nested]
+    decided = False
+    n_leaves = 0
+    for i in ifs:
+        lv = list(leaves(i, []))
+        kinds = [("paren" if has_paren(e) else "delegated" if delegates(e) else "bare") for _p, e in lv]
+        if "bare" not in kinds or len(set(kinds)) == 1:
+            continue
+        decided = True
+        for (pth, e), kd in zip(lv, kinds):
+            if kd != "bare":
+                continue
+            n_leaves += 1
+            guarded = any("is_integer" in t_ and ((br == "then" and not neg) or (br == "else" and neg)) for t_, br, neg in pth)
+            alltests = sorted(set().union(*[t_ for t_, _b, _n in pth]))
+            if guarded:
+                out.ok("type-exponent:bare-only-if-integer", pf, pl, "the exponent is written without parentheses only under an is_integer() test (%s)" % alltests)
+            else:
+                out.violation("type-exponent:bare-only-if-integer", pf, pl, "the exponent of a dimension expression is written without parentheses under the test %s, which does not include is_integer(): `Length^(1/2)` is echoed as `Length^1/2`" % alltests)
     if not decided:
-        any_paren = any(y.get("k") == "Lit" and isinstance(y.get("lit"), dict) and y["lit"].get("v") == "(" for y in walk(parm["body"]))
-        if any_paren:
+        # no decision in the arm: look at the parts of the arm that render the exponent
+        blk = peel(parm["body"])
+        parts = []
+        if blk.get("k") == "Block":
+            parts = [st for st in blk.get("stmts", []) if mentions_exp(st)] + ([blk["tail"]] if blk.get("tail") is not None and mentions_exp(blk["tail"]) else [])
+        else:
+            parts = [blk]
+        if parts and all(delegates(p_) and not has_paren(p_) for p_ in parts):
+            out.ok("type-exponent:bare-only-if-integer", pf, pl, "the exponent is rendered by the formatter of crate::arithmetic (see EXPSUP / EXPFORM)")
+        elif any(has_paren(p_) for p_ in parts):
             out.ok("type-exponent:bare-only-if-integer", pf, pl, "the exponent is always parenthesised")
         else:
             out.violation("type-exponent:bare-only-if-integer", pf, pl, "the exponent of a dimension expression is never parenthesised")
     out.analysed = {"struct_fields": 3, "power_arm_ifs": len(ifs), "decorator_carriers": n_dec}
-    out.floor("power_arm_ifs", len(ifs), 1)
     return out
 
 
